@@ -331,6 +331,15 @@ fn programs(family: &str) -> Vec<(String, Outcome)> {
             p(&st("    x := not true\n"), Outcome::Accept);
             p(&st("    x := [1, 2]\n"), Outcome::Accept);
             p(&st("    if true do\n        print(1)\n    end\n"), Outcome::Accept);
+            // uses of a variable that contradict its known type
+            let f = "    f :: fn a: int -> int do\n        ret a\n    end\n";
+            p(&st(&format!("{}    x := f(1)\n", f)), Outcome::Accept);
+            p(&st(&format!("{}    x := f(1, 2)\n", f)), Outcome::Reject);
+            p(&st(&format!("{}    x := f()\n", f)), Outcome::Reject);
+            p(&st("    n := 1\n    x := n(1)\n"), Outcome::Reject);
+            p(&st("    n := 1\n    x := n.f\n"), Outcome::Reject);
+            p(&st("    n := 1\n    x := n[0]\n"), Outcome::Reject);
+            p(&st("    t := (1, 2)\n    x := t[5]\n"), Outcome::Reject);
         }
         "case" => {
             let arms = |a: &str| format!("{}start :: fn do\n    a := A.X 1\n    case a do\n{}    end\nend\n", enum_a, a);
